@@ -9,8 +9,8 @@ CHECKS = {
         design="DESIGN.md section 5/C03",
     ),
     "C14": dict(
-        text="Theorem: for every cell comparison and all pairs of tables with default row numbering, equals holds iff name, destination set, column names, units, row count agree and cells are pairwise equal; reflexivity and symmetry; a refutation theorem for the pre-repair code. Model tied to Table.equals by generated (t, mutate(t)) pairs evaluated with vm_compute; expected verdicts recomputed from the specifications.",
-        note="Coq kernel + vm_compute; model Model/Equals.v; H_eqv (_equal_or_same = token equality on generated scalar kinds) checked on all pairs of a value pool each run; pandas itertuples/shape semantics assumed.",
+        text="Theorem: for every cell comparison and all pairs of tables with default row numbering, equals holds iff name, destination set, column names, units, row count agree and cells are pairwise equal; reflexivity and symmetry; with the concrete cell comparison on python scalars (ints as integers, floats as bit patterns): numbers are equal cells iff their exact values are, the missing values equal each other and nothing else, the comparison is an equivalence; on python objects origin, orientation and class are ignored and a non-table is unequal; refutation theorems for the code before each of the three repairs. Model tied to Table.equals by generated (t, mutate(t)) pairs (numpy and nullable column types, a subclass) and all pairs of a scalar pool, evaluated with vm_compute; expected verdicts recomputed independently from the specifications.",
+        note="Coq kernel + vm_compute; models Model/Equals.v, Model/PyEq.v; H_pyeq (python == on int/bool/float is exact, on str/Timestamp by content) checked on all pairs of a scalar pool each run; pandas itertuples/shape semantics assumed.",
         design="DESIGN.md section 5/C14",
     ),
     "C20": dict(
@@ -24,7 +24,7 @@ CHECKS = {
         design="DESIGN.md section 5/C02",
     ),
     "C07": dict(
-        text="Theorems for every input: the jsondata read equals the pdtable read with each table replaced by the JSON rendering of the same parse; the cellgrid read never fails and hands out the raw rows of each block, with the same types/origins whenever the pdtable read succeeds. Correspondence on three forms per generated sheet; oracle compares jsondata with table_to_json_data incl. exact leaf types and checks rejection of unknown forms before any row is consumed.",
+        text="Theorems for every input: the jsondata read equals the pdtable read with each table replaced by the JSON rendering of the same parse; the cellgrid read never fails and hands out the raw rows of each block, with the same types/origins whenever the pdtable read succeeds; for every delivered table, table_to_json_data of the frame built from the parse equals the JsonData rendered from the precursor (two routes, one result). Correspondence on three forms per generated sheet plus table_to_json_data of every delivered table against the model's frame route; oracle compares jsondata with table_to_json_data incl. exact leaf types and checks rejection of unknown forms before any row is consumed.",
         note="Coq kernel + vm_compute; models Reader.v, Json.v; H_tolist; the dispatch on the 'to' string itself is checked by the oracle only.",
         design="DESIGN.md section 5/C07",
     ),
